@@ -21,7 +21,7 @@
      ClassFrozenAtLex     the class of an ID/TYPEID token is the lookup made for it (C04)
      LookaheadSafe        a name is never registered while an identifier token with that
                           spelling sits unconsumed in the buffer                    (C04)
-     ScopeBraceAgreement  #scopes = 1 + #open braces whenever no callback is pending (C04,C18)
+     ScopeBraceAgreement  #scopes = 1 + #'{' lexed - #'}' lexed after every token      (C04,C18)
      RegisterClash        a registration raises iff the scope holds the other kind
      FreshStart           parse() starts from the initial front-end state           (C12)
      SingleErrorChannel   the call ends with a FileAST or with ParseError
@@ -34,8 +34,8 @@ CONSTANT R
 
 Traces == JsonDeserialize(IOEnv.TRACES)
 
-VARIABLES tid, l, buf, idx, uses, stk, brk, pend, lst, eof, failed
-pvars == <<tid, l, buf, idx, uses, stk, brk, pend, lst, eof, failed>>
+VARIABLES tid, l, buf, idx, uses, stk, brk, bd, pend, lst, eof, failed
+pvars == <<tid, l, buf, idx, uses, stk, brk, bd, pend, lst, eof, failed>>
 
 T    == Traces[tid]
 Ev   == T.ev[l]
@@ -57,32 +57,31 @@ BracketStep(b, ty) ==
   ELSE IF ty \in DOMAIN CloseB
        THEN (IF b # <<>> /\ b[Len(b)] = CloseB[ty] THEN SubSeq(b, 1, Len(b)-1) ELSE Append(b, "MISMATCH"))
   ELSE b
-BraceCount(b) == Cardinality({ i \in 1..Len(b) : b[i] = "LBRACE" })
 
 PInit == /\ tid \in 1..Len(Traces) /\ l = 1
-         /\ buf = <<>> /\ idx = 0 /\ uses = <<>> /\ stk = << {} >> /\ brk = <<>>
+         /\ buf = <<>> /\ idx = 0 /\ uses = <<>> /\ stk = << {} >> /\ brk = <<>> /\ bd = 0
          /\ pend = <<"none">> /\ eof = FALSE /\ failed = FALSE
          /\ lst = InitState(Traces[tid].file)
 
 \* FreshStart (C12): the lexer state logged right after parse() re-initialised it
 Begin == /\ Is("begin") /\ l = 1
          /\ Ev.st.pos = 0 /\ Ev.st.line = 1 /\ Ev.st.lstart = 0 /\ Ev.st.file = T.file /\ Ev.st.pend = <<>>
-         /\ Adv /\ UNCHANGED <<buf, idx, uses, stk, brk, pend, lst, eof, failed>>
+         /\ Adv /\ UNCHANGED <<buf, idx, uses, stk, brk, bd, pend, lst, eof, failed>>
 
 Push == /\ Is("push") /\ ~failed /\ pend = <<"none">>
         /\ stk' = Append(stk, {}) /\ Ev.d = Len(stk) + 1
         /\ pend' = <<"brace", "LBRACE">>
-        /\ Adv /\ UNCHANGED <<buf, idx, uses, brk, lst, eof, failed>>
+        /\ Adv /\ UNCHANGED <<buf, idx, uses, brk, bd, lst, eof, failed>>
 Pop  == /\ Is("pop") /\ ~failed /\ pend = <<"none">>
         /\ IF Len(stk) > 1
            THEN /\ ~Ev.raised /\ stk' = SubSeq(stk, 1, Len(stk)-1) /\ Ev.d = Len(stk) - 1
                 /\ pend' = <<"brace", "RBRACE">> /\ UNCHANGED failed
            ELSE /\ Ev.raised /\ failed' = TRUE /\ UNCHANGED <<stk, pend>>      \* a '}' that closes nothing
-        /\ Adv /\ UNCHANGED <<buf, idx, uses, brk, lst, eof>>
+        /\ Adv /\ UNCHANGED <<buf, idx, uses, brk, bd, lst, eof>>
 Look == /\ Is("look") /\ ~failed /\ pend = <<"none">>
         /\ Ev.ans = Lookup(stk, Len(stk), Ev.name)                              \* LookupIsInnermost
         /\ pend' = <<"look", Ev.name, Ev.ans>>
-        /\ Adv /\ UNCHANGED <<buf, idx, uses, stk, brk, lst, eof, failed>>
+        /\ Adv /\ UNCHANGED <<buf, idx, uses, stk, brk, bd, lst, eof, failed>>
 
 \* one token() call seen from the parser.  The cursor machine is asked with the typedef names
 \* that were visible when the call started: a pending "look" already holds the answer given.
@@ -90,12 +89,12 @@ CallNow == Call(T.text, lst, TypeNames(stk))
 Tok  == /\ Is("tok") /\ ~eof
         /\ IF failed
            THEN /\ Ev.exc # ""                                                   \* the callback's exception propagates
-                /\ UNCHANGED <<buf, uses, brk, pend, lst, eof, failed>>
+                /\ UNCHANGED <<buf, uses, brk, bd, pend, lst, eof, failed>>
            ELSE LET r == CallNow IN
                 IF r.err # <<>>
                 THEN /\ Ev.exc # "" /\ Ev.errs # <<>>                             \* lexer errors raise inside parse()
                      /\ r.err[1] <= Ev.errs[1] /\ Ev.errs[1] <= r.err[2]
-                     /\ failed' = TRUE /\ UNCHANGED <<buf, uses, brk, pend, lst, eof>>
+                     /\ failed' = TRUE /\ UNCHANGED <<buf, uses, brk, bd, pend, lst, eof>>
                 ELSE /\ Ev.exc = "" /\ Ev.errs = <<>>
                      /\ Ev.tok = r.tok                                            \* type, spelling, line, column
                      /\ Ev.st.pos = r.st.pos /\ Ev.st.line = r.st.line /\ Ev.st.lstart = r.st.lstart
@@ -104,7 +103,7 @@ Tok  == /\ Is("tok") /\ ~eof
                      /\ IF r.tok = <<>>
                         THEN /\ pend = <<"none">> /\ eof' = TRUE
                              /\ buf' = Append(buf, <<"EOF", "">>) /\ uses' = Append(uses, 0)
-                             /\ UNCHANGED <<brk, pend, failed>>
+                             /\ UNCHANGED <<brk, bd, pend, failed>>
                         ELSE /\ CASE r.tok[1] = "LBRACE" -> pend = <<"brace", "LBRACE">>
                                   [] r.tok[1] = "RBRACE" -> pend = <<"brace", "RBRACE">>
                                   [] r.tok[1] \in {"ID", "TYPEID"} ->              \* ClassFrozenAtLex
@@ -113,7 +112,8 @@ Tok  == /\ Is("tok") /\ ~eof
                              /\ pend' = <<"none">>
                              /\ buf' = Append(buf, <<r.tok[1], r.tok[2]>>) /\ uses' = Append(uses, 0)
                              /\ brk' = BracketStep(brk, r.tok[1])
-                             /\ Len(stk) = 1 + BraceCount(brk')                   \* ScopeBraceAgreement
+                             /\ bd' = IF r.tok[1] = "LBRACE" THEN bd + 1 ELSE IF r.tok[1] = "RBRACE" THEN bd - 1 ELSE bd
+                             /\ Len(stk) = 1 + bd'                                \* ScopeBraceAgreement
                              /\ UNCHANGED <<eof, failed>>
         /\ Adv /\ UNCHANGED <<idx, stk>>
 
@@ -121,10 +121,10 @@ Nxt  == /\ Is("next") /\ ~failed
         /\ Ev.ix = idx /\ idx < Len(buf)                                          \* IndexInRange
         /\ idx' = idx + 1 /\ uses' = [uses EXCEPT ![idx+1] = @ + 1]
         /\ uses'[idx+1] <= R                                                      \* ReconsumptionBound
-        /\ Adv /\ UNCHANGED <<buf, stk, brk, pend, lst, eof, failed>>
+        /\ Adv /\ UNCHANGED <<buf, stk, brk, bd, pend, lst, eof, failed>>
 Reset == /\ Is("reset") /\ ~failed
          /\ Ev.frm = idx /\ Ev.to <= idx /\ Ev.to >= 0 /\ idx' = Ev.to            \* ResetBackwards
-         /\ Adv /\ UNCHANGED <<buf, uses, stk, brk, pend, lst, eof, failed>>
+         /\ Adv /\ UNCHANGED <<buf, uses, stk, brk, bd, pend, lst, eof, failed>>
 Reg  == /\ Is("reg") /\ ~failed /\ pend = <<"none">>
         /\ Ev.d = Len(stk) /\ Ev.bl = Len(buf) /\ Ev.ix = idx
         /\ \A j \in (idx+1)..Len(buf) :                                           \* LookaheadSafe
@@ -132,7 +132,7 @@ Reg  == /\ Is("reg") /\ ~failed /\ pend = <<"none">>
         /\ IF <<Ev.name, ~Ev.t>> \in stk[Len(stk)]                                \* RegisterClash
            THEN Ev.raised /\ failed' = TRUE /\ UNCHANGED stk
            ELSE ~Ev.raised /\ stk' = [stk EXCEPT ![Len(stk)] = @ \cup {<<Ev.name, Ev.t>>}] /\ UNCHANGED failed
-        /\ Adv /\ UNCHANGED <<buf, idx, uses, brk, pend, lst, eof>>
+        /\ Adv /\ UNCHANGED <<buf, idx, uses, brk, bd, pend, lst, eof>>
 \* the parser itself raised ParseError (syntax error): nothing else to check until the end
 End  == /\ Is("end") /\ l = Len(T.ev)
         /\ (failed => ~Ev.ok)
@@ -142,7 +142,7 @@ End  == /\ Is("end") /\ l = Len(T.ev)
                      /\ Len(stk) = 1 /\ Ev.depth = 1
                      /\ \A j \in 1..Len(buf) : buf[j][1] # "PPHASH")
         /\ Ev.bl = Len(buf) /\ (~failed => Ev.ix = idx)
-        /\ Adv /\ UNCHANGED <<buf, idx, uses, stk, brk, pend, lst, eof, failed>>
+        /\ Adv /\ UNCHANGED <<buf, idx, uses, stk, brk, bd, pend, lst, eof, failed>>
 
 PNext == Begin \/ Push \/ Pop \/ Look \/ Tok \/ Nxt \/ Reset \/ Reg \/ End
 PSpec == PInit /\ [][PNext]_pvars
